@@ -1,5 +1,5 @@
 import sys
-from collections.abc import MutableSequence, MutableSet, Sequence
+from collections.abc import MutableSequence, MutableSet, Sequence, Set
 from typing import Any, Callable, Generic, Iterable, Optional, Tuple, Type, TypeVar
 
 from spec_classes.errors import BaseTypeError
@@ -373,6 +373,30 @@ class KeyedSet(Generic[ItemType, KeyType], MutableSet, KeyedBase):  # pylint: di
             enforce_item_equivalence=self.enforce_item_equivalence,
         )
 
+    def _by_key(self, other):
+        """
+        View the items of another set (e.g. a builtin `set`, which identifies
+        its items by hash and equality) through the key function of this one, so
+        that both operands of `-`, `<=`, ... identify their items by key.
+        """
+        if isinstance(other, KeyedSet) or not isinstance(other, Set):
+            return other
+        keyed = KeyedSet(key=self._key)
+        for item in other:
+            try:
+                keyed.add(item)
+            except Exception:  # pylint: disable=broad-except
+                # The key function does not apply, so this item shares its key
+                # with none of ours.
+                pass
+        return keyed
+
+    def __sub__(self, other):
+        return super().__sub__(self._by_key(other))
+
+    def __le__(self, other):
+        return super().__le__(self._by_key(other))
+
     # Magic methods
 
     def __eq__(self, other):
@@ -381,11 +405,11 @@ class KeyedSet(Generic[ItemType, KeyType], MutableSet, KeyedBase):  # pylint: di
         # non-hashable (only their keys need to be hashable).
         if isinstance(other, KeyedSet):
             return self._dict == other._dict
-        if isinstance(other, set):
-            try:
-                return set(self._dict.values()) == other
-            except TypeError:
-                return False
+        if isinstance(other, Set):
+            # The items of `other` are matched up with ours by key (they may be
+            # equal to ours without being found by hash, or not be hashable).
+            keyed = self._by_key(other)
+            return len(other) == len(keyed) and self._dict == keyed._dict
         return NotImplemented
 
     def __repr__(self):
